@@ -259,7 +259,40 @@ class Outcome:
         self.events = []
 
 
-def replay_one(beh, grids, observers=(), compute_all=True, opts=None):
+def spec_value(arr, max_den=5000):
+    """NumPy value -> the representation of NdArray.tla ([shape, kind, data]); floats become exact small
+    rationals <<num, den>> (den = 0: NaN; den = -1: no small rational within 1e-9, never equal to a denotation)."""
+    from fractions import Fraction
+
+    a = np.asarray(arr)
+    k = kind_of(a.dtype)
+    flat = a.ravel().tolist()
+    if k == "f":
+        data = []
+        for v in flat:
+            if v != v:
+                data.append([0, 0])
+            elif v in (float("inf"), float("-inf")):
+                data.append([1 if v > 0 else -1, -1])
+            else:
+                fr = Fraction(v).limit_denominator(max_den)
+                if abs(float(fr) - v) <= 1e-9 * max(1.0, abs(v)) and abs(fr.numerator) < 2 ** 20:
+                    data.append([fr.numerator, fr.denominator])
+                else:
+                    data.append([int(max(min(v, 1e6), -1e6)), -1])
+    elif k in ("b", "i"):
+        data = [int(v) for v in flat]
+        if any(abs(v) >= 2 ** 31 for v in data):
+            data = [max(min(v, 2 ** 31 - 1), -(2 ** 31 - 1)) for v in data]
+    else:
+        data = [repr(v) for v in flat]
+    return {"shape": [int(x) for x in a.shape], "kind": k, "data": data}
+
+
+RAISED = {"shape": [], "kind": "raised", "data": []}
+
+
+def replay_one(beh, grids, observers=(), compute_all=True, opts=None, emit=None):
     """Replay one behaviour with one grid per source.  Returns list of (clause, detail)."""
     import dask
 
@@ -271,7 +304,9 @@ def replay_one(beh, grids, observers=(), compute_all=True, opts=None):
     problems = []
     gi = 0
     ctx = {"prog": prog, "grids": [list(map(list, g)) for g in grids], "da_env": da_env, "np_env": np_env, "env": env,
-           "opts": opts or {}}
+           "opts": opts or {}, "emit": emit if emit is not None else []}
+    last = len(prog) - 1
+    last_only = bool((opts or {}).get("last_only"))
     for k, act in enumerate(prog):
         exp = env[k]
         if act["a"] == "Source":
@@ -284,8 +319,9 @@ def replay_one(beh, grids, observers=(), compute_all=True, opts=None):
             gi += 1
             d = da.from_array(arr.copy(), chunks=g)
             da_env.append(d)
-            for ob in observers:
-                ob(ctx, k, act, d, arr, problems)
+            if not last_only:
+                for ob in observers:
+                    ob(ctx, k, act, d, arr, problems)
             continue
         expect_err = exp["kind"] == "err"
         n0 = len(problems)
@@ -360,8 +396,9 @@ def replay_one(beh, grids, observers=(), compute_all=True, opts=None):
             wantc = tuple(tuple(c) for c in act["chunks"])
             if tuple(d.chunks) != wantc:
                 problems.append(("rechunk-chunks", f"action {k}: rechunk({wantc}) advertises {d.chunks}"))
-        for ob in observers:
-            ob(ctx, k, act, d, nv, problems)
+        if not last_only or k == last:
+            for ob in observers:
+                ob(ctx, k, act, d, nv, problems)
     return problems
 
 
@@ -391,8 +428,9 @@ def _worker(args):
     for beh in behs:
         for grids in variants(beh, max_variants, rng):
             out.n_programs += 1
+            emit = []
             try:
-                probs = replay_one(beh, grids, obs, compute_all=not (opts or {}).get("no_compute"), opts=opts)
+                probs = replay_one(beh, grids, obs, compute_all=not (opts or {}).get("no_compute"), opts=opts, emit=emit)
             except SpecMismatch as ex:
                 out.machinery.append(str(ex))
                 continue
@@ -404,6 +442,11 @@ def _worker(args):
                 case = {"prog": beh["prog"], "env": beh["env"], "grids": [list(map(list, g)) for g in grids], "detail": detail}
                 case.update(failing_action(beh, detail))
                 out.violations.append((case, clause))
+            if emit:
+                ref = {"prog": beh["prog"], "grids": [list(map(list, g)) for g in grids]}
+                for e in emit:
+                    e["_ref"] = ref
+                out.events += emit
     return out
 
 
@@ -440,23 +483,25 @@ ALL_ACTS = ["Index", "Elemwise", "Unary", "AsType", "Transpose", "Reshape", "Exp
             "PadRepeat", "TopK"]
 
 
-def program_cfg(acts, maxlen, preset, sim, smax=3, idxpad=2, emit_all=False):
+def program_cfg(acts, maxlen, preset, sim, smax=3, idxpad=2, emit_all=False, lean=False, excl=()):
     acts_s = ", ".join(f'"{a}"' for a in acts)
     return (
         "INIT Init\nNEXT Next\nINVARIANT Emit\nINVARIANT WellFormed\nCHECK_DEADLOCK FALSE\nCONSTANTS\n"
         f"  Acts = {{{acts_s}}}\n  MaxLen = {maxlen}\n  SrcPreset = \"{preset}\"\n  Sim = {'TRUE' if sim else 'FALSE'}\n"
         f"  SMax = {smax}\n  IdxPad = {idxpad}\n  EmitAll = {'TRUE' if emit_all else 'FALSE'}\n"
+        f"  Lean = {'TRUE' if lean else 'FALSE'}\n"
+        "  ExclPairs = {" + ", ".join(f'"{a}>{b}"' for a, b in excl) + "}\n"
     )
 
 
 def generate_programs(acts, maxlen, preset, *, sim, num=None, seed=0, smax=3, idxpad=2, emit_all=False, rundir=None,
-                      timeout=900, depth=None):
-    cfg = program_cfg(acts, maxlen, preset, sim, smax, idxpad, emit_all)
+                      timeout=900, depth=None, lean=False, workers=1, excl=()):
+    cfg = program_cfg(acts, maxlen, preset, sim, smax, idxpad, emit_all, lean, excl)
     if sim:
         res = tlc.run_tlc("ArrayProgram", cfg, simulate=f"num={num}", depth=depth or (maxlen + 3), seed=seed, rundir=rundir,
                           timeout=timeout, heap="3g")
     else:
-        res = tlc.run_tlc("ArrayProgram", cfg, rundir=rundir, timeout=timeout, heap="4g")
+        res = tlc.run_tlc("ArrayProgram", cfg, rundir=rundir, timeout=timeout, heap="6g", workers=workers)
     tlc.require_clean(res, "ArrayProgram generation")
     return parse_behaviours(res), res
 
